@@ -212,7 +212,7 @@ def scan(index: Index) -> Scan:
                         from .values import dim_unify
                         got = e.rhs.dim
                         _, bad = dim_unify(want, got)
-                        if bad and dim_collapse(got) != ANY:
+                        if bad and dim_collapse(got) != ANY and not (e.rhs.has_const() and e.rhs.const is None):     # None: "not computed yet"
                             k = f"{e.func.qualname}:store:{e.loc[1]}"
                             sc.conflicts.setdefault(k, (e.where(), f"stores a quantity of dimension {dim_str(got)} into {e.loc[1]} "
                                                         f"(declared {dim_str(want)}) in `{_norm(e.node)[:70]}`", e.func.qualname))
